@@ -68,11 +68,23 @@ def tsan_sources():
 ENV = {"CELER_LOG_LOCAL": "error", "CELER_LOG": "error"}
 
 
+def _run_lines_retry(args, lines, **kw):
+    """another check may be relinking a shared library of the common build tree at this very
+    moment (`file too short` / `cannot open shared object`): wait and retry"""
+    import time as _t
+    for _ in range(12):
+        rc, out = vlib.run_lines(args, lines, **kw)
+        if not any("error while loading shared libraries" in l for l in out[:3]):
+            return rc, out
+        _t.sleep(5)
+    return rc, out
+
+
 def run_one(exe, line, env=None):
     e = dict(ENV)
     if env:
         e.update(env)
-    rc, out = vlib.run_lines([exe], [line], env=e, timeout=1800)
+    rc, out = _run_lines_retry([exe], [line], env=e, timeout=1800)
     ev = {}
     totals = None
     for l in out:
